@@ -158,5 +158,13 @@ Definition parts_obs_ok {P} (eqp : P -> P -> bool) (x : outcome (list (part P)))
   end.
 Definition segs_obs_ok (x : outcome (list (list N))) (segs : list (list N)) : bool :=
   match x with Ok l => beq_list beq_bytes l segs | _ => false end.
+(* a part's header as the implementation reports it: UserDataHeader.Len() and ConcatenatedHeader() *)
+Definition udh_obs_ok (u : udh) (len : N) (ch : option (N * N * N)) : bool :=
+  (N.of_nat (udh_len u) =? len) &&
+  match concat_of_udh u, ch with
+  | Some (a, b, c), Some (x, y, z) => (a =? x) && (b =? y) && (c =? z)
+  | None, None => true
+  | _, _ => false
+  end.
 (* run-length helper for long generated texts *)
 Definition rep (n : N) (r : N) : list N := repeat r (N.to_nat n).
